@@ -560,6 +560,10 @@ void upolynomial_roots_find_rabin(const lp_upolynomial_t* f, lp_integer_t* roots
         mpz_urandomm(delta, state, &K->M);
         integer_ring_normalize(K, delta);
         integer_neg(K, delta, delta);
+        // a zero constant term is not a valid monomial of xd (the arithmetic asserts on it): draw again
+        if (integer_sgn(lp_Z, delta) == 0) {
+          continue;
+        }
         // calculate gcd
         lp_upolynomial_t *h = upolynomial_power_mod(xd, &s, p);
         upolynomial_op_inplace(lp_upolynomial_sub, &h, p1);
